@@ -2,8 +2,8 @@
 
 T1   translate/c17_facts.py -> Gen/C17Facts.v : the shape of 20 DuckDB emulations sqlframe itself writes (index shifts,
      NULL guards, argument arithmetic, compositions), re-read from functions.py / function_alternatives.py / column.py
-Prf  coq/props/C17.v : C17_partial (one theorem per emulation, instantiated on the generated shapes), C17_refuted_*
-     (defects the model exhibits), over coq/theories/C17/Emul.v
+Prf  coq/props/C17.v : C17_partial (one theorem per emulation, instantiated on the generated shapes), C17_verdict_* (exact
+     under the repaired shape / characterised defect under the old one), C17_refuted_getItem_column_key, over C17/Emul.v
 T3a  every call of oracle/c17_pyspark.jsonl (all functions exported by sqlframe.duckdb.functions that a typed generator
      can drive; values recorded from PySpark 3.5.9 by oracle/record_c17.py) is evaluated on a DuckDBSession and compared
 T3b  for the modelled emulations: DuckDB's value == the Coq DuckDB-side model under the generated facts, and the recorded
@@ -331,6 +331,15 @@ def run(ctx: core.Ctx):
     # ---- T3a: all recorded calls on DuckDB ----------------------------------------------------------------------------
     recs = [json.loads(l) for l in open(REC)]
     by_id = {r["id"]: r for r in recs}
+    # the recording must be the recording of the current templates (ids, arguments); the template's Tag names the kind of input
+    tpl = {c["id"]: c for c in cc.all_calls()}
+    stale = [r["id"] for r in recs if r["id"] not in tpl or tpl[r["id"]]["args"] != r["args"] or tpl[r["id"]]["kwargs"] != r["kwargs"]]
+    stale += [i for i in tpl if i not in by_id]
+    if stale:
+        ctx.broken("oracle:recording-out-of-date", "oracle/c17_pyspark.jsonl does not match checks/c17_cases.py for: "
+                   + ", ".join(stale[:10]) + " (re-run oracle/record_c17.py)")
+    for r in recs:
+        r["tag"] = tpl.get(r["id"], {}).get("tag")
     duck = Duck()
     t0 = time.time()
     out = duck.evaluate(recs)
@@ -353,7 +362,7 @@ def run(ctx: core.Ctx):
         if "error" in o:
             evaluations += 1
             hist_verdict["raises"] = hist_verdict.get("raises", 0) + 1
-            e = per_sig.setdefault((fn, "raises"), {"tpl": set(), "items": []})
+            e = per_sig.setdefault((fn, "raises", r["tag"]), {"tpl": set(), "items": []})
             e["tpl"].add(tno)
             e["items"].append({"call": r["text"], "call_spec": {k: r[k] for k in ("id", "fn", "mode", "args", "kwargs")},
                                "spark": [cc.show(v) for v in r["spark"]], "duckdb": o["error"]})
@@ -384,21 +393,22 @@ def run(ctx: core.Ctx):
                 informational.append(item)
                 continue
             hist_verdict["deviates:" + asp] = hist_verdict.get("deviates:" + asp, 0) + 1
-            e = per_sig.setdefault((fn, asp), {"tpl": set(), "items": []})
+            e = per_sig.setdefault((fn, asp, r["tag"]), {"tpl": set(), "items": []})
             e["tpl"].add(tno)
             item["call_spec"] = {kk: r[kk] for kk in ("id", "fn", "mode", "args", "kwargs")}
             if r["mode"] == "row":
                 item["table_row"] = {c: cc.show(cc.canon(v)) for c, v in zip(cc.COLS, cc.ROWS[k])
                                      if any(c in json.dumps(a) for a in r["args"])}
             e["items"].append(item)
-    for (fn, asp), e in sorted(per_sig.items()):
-        sig = f"C17/{fn}/{asp}@{','.join(sorted(e['tpl'], key=int))}"
+    # signature = (function, aspect [, kind of input named by the template]); which template numbers fail is data, not identity
+    for (fn, asp, tag), e in sorted(per_sig.items(), key=lambda kv: (kv[0][0], kv[0][1], kv[0][2] or "")):
+        sig = f"C17/{fn}/{asp}" + (f"/{tag}" if tag else "")
         first = e["items"][0]
         what = (f"{first['call']} raises on DuckDB: {first['duckdb']}" if asp == "raises" else
                 f"{first['call']} row {first['row']}: Spark {first['spark']!r}, DuckDB {first['duckdb']!r} ({first['why']})")
-        ctx.deviation(sig, what, {"function": fn, "aspect": asp, "failing_templates": sorted(e["tpl"], key=int),
+        ctx.deviation(sig, what, {"function": fn, "aspect": asp, "input_kind": tag, "failing_templates": sorted(e["tpl"], key=int),
                                   "cases": e["items"][:12], "n_cases": len(e["items"])})
-    ctx.log(f"T3a: {evaluations} evaluations, {len(per_sig)} (function, aspect) deviation classes, "
+    ctx.log(f"T3a: {evaluations} evaluations, {len(per_sig)} (function, aspect, input kind) deviation classes, "
             f"{len(informational)} informational differences")
 
     # ---- T3b: modelled emulations against both engines ---------------------------------------------------------------------
@@ -455,6 +465,20 @@ def run(ctx: core.Ctx):
     ctx.log(f"T3b: {n_model} model cases ({n_model_dom} in a theorem's domain), impl!=model {len(impl_vs_model)}, "
             f"spark!=spec {len(spec_bad)}")
 
+    flag_names = ["slice", "element_at", "try_element_at", "rint", "sequence", "unix_millis", "array_position(NULL)",
+                  "nanvl(NULL)", "levenshtein(NULL)"]
+    verdicts = {}
+    if proved:
+        outp = ctx.coq_eval("From Coq Require Import List Bool.\nFrom SF Require Import C17.Emul C17.EmulCheck.\nFrom Gen Require Import C17Facts.\n"
+                            "Import ListNotations.\nDefinition flags := [slice_cfg_ok c17_slice; element_at_cfg_exact c17_element_at; "
+                            "element_at_cfg_exact c17_try_element_at; rint_cfg_exact c17_rint; seq_cfg_exact c17_seq_default; "
+                            "millis_cfg_exact c17_unix_millis; pos_cfg_exact c17_pos; nanvl_cfg_exact c17_nanvl; lev_cfg_exact c17_lev].",
+                            "flags")
+        import re as _re
+        vals = _re.findall(r"\b(true|false)\b", outp.split("=", 1)[1] if "=" in outp else "")
+        if len(vals) == len(flag_names):
+            verdicts = {n: ("exact on the whole stated domain (C17_verdict_* proves the `then` branch)" if v == "true"
+                            else "defect characterised (C17_verdict_* proves the `else` branch)") for n, v in zip(flag_names, vals)}
     # ---- thorough: Spark-backed sqlframe session + fresh live recording ------------------------------------------------
     live = {}
     if ctx.tier == "thorough":
@@ -488,12 +512,14 @@ def run(ctx: core.Ctx):
                        "differential comparison with values recorded from PySpark 3.5.9 -- sampled inputs, not a proof",
         "functions_exported": len(exported),
         "proved": {"count": len(proved_here), "functions": proved_here,
-                   "note": "emulations with a Coq theorem instantiated on regenerated facts (slice: the theorem characterises the defect)"},
+                   "note": "emulations with a Coq theorem instantiated on regenerated facts; see verdict_branch_per_emulation for those "
+                           "whose statement follows the generated shape"},
         "recorded_only": {"count": len(rec_only), "functions": rec_only,
                           "note": "no sqlframe-owned logic to model (sqlframe names a sqlglot node / engine function), or an "
                                   "emulation listed in emulations_not_modelled: judged by T3 against PySpark recordings only"},
         "not_exercised": {"count": len(not_ex), "functions": not_ex},
         "emulations_not_modelled": EMULATIONS_NOT_MODELLED,
+        "verdict_branch_per_emulation": verdicts,
         "spark_backed_session_half": live.get("spark_backed", "not covered in the quick tier (needs a JVM); thorough tier runs the same "
                                               "calls through sqlframe.spark against the recording"),
         "recorded_calls": len(recs), "recorded_calls_spark_rejects": n_spark_err,
